@@ -152,6 +152,25 @@ def drvStep (d : Drv) (args : List String) : Drv × String :=
         let r := d'.apply k (.spend pos sk h)
         (r.1, render d r.1 (fmtRes r.2))
     | _, _, _, _ => bad
+  | ["spend2", ka, posa, kinda, ida, kb, posb, kindb, idb, h] =>
+    -- two spend notifications handled concurrently: the pending-batch mutex serialises the handlers,
+    -- A first; B's transaction is the one the chain reported (taken from the state before A ran)
+    match nat? ka, nat? posa, spendKind? kinda ida, nat? kb, nat? posb, spendKind? kindb idb, nat? h with
+    | some ka, some posa, some ska, some kb, some posb, some skb, some h =>
+      let sa := d.get ka
+      let sb := d.get kb
+      match sa.w.spendRegs[posa]?, sb.w.spendRegs[posb]? with
+      | some ra, some rb =>
+        match spendTx sa ska ra.op, spendTx sb skb rb.op with
+        | some ta, some tb =>
+          let d1 := d.spendFanout ka (some ta)
+          let r1 := d1.apply ka (.spendT posa ta h)
+          let d2 := r1.1.spendFanout kb (some tb)
+          let r2 := d2.apply kb (.spendT posb tb h)
+          (r2.1, render d r2.1 (fmtRes r1.2 ++ "+" ++ fmtRes r2.2))
+        | _, _ => bad
+      | _, _ => bad
+    | _, _, _, _, _, _, _ => bad
   | ["spendd", k, kind, id, h] =>
     match nat? k, spendKind? kind id, nat? h with
     | some k, some sk, some h =>
